@@ -82,7 +82,11 @@ func (c SPCfg) toks() []string {
 }
 
 func (a Assn) toks(cfg SPCfg) []string {
-	t := []string{a.Wrap, sigState(a.Sig, cfg), encInt(a.II), encStr(a.issuerStr())}
+	wrapTok := a.Wrap
+	if strings.HasPrefix(wrapTok, "b") {
+		wrapTok = "b" // every flavour of undecryptable ciphertext is one thing for the model
+	}
+	t := []string{wrapTok, sigState(a.Sig, cfg), encInt(a.II), encStr(a.issuerStr())}
 	if a.Subject == nil {
 		t = append(t, "-")
 	} else {
@@ -239,7 +243,7 @@ func (b *builder) assertionEl(a Assn, n int) *etree.Element {
 		el = signed
 	}
 	switch a.Wrap {
-	case "e", "b":
+	case "e", "b", "b-empty", "b-blank", "b-ivonly", "b-truncated", "b-flipped", "b-nokey":
 		doc := etree.NewDocument()
 		doc.SetRoot(el)
 		buf, err := doc.WriteToBytes()
@@ -254,6 +258,33 @@ func (b *builder) assertionEl(a Assn, n int) *etree.Element {
 		ed, err := enc.Encrypt(cert, buf, nil)
 		must(err)
 		ed.CreateAttr("Type", "http://www.w3.org/2001/04/xmlenc#Element")
+		// malformed content ciphertext under an intact, correctly wrapped key (the content CipherValue is the last one in the element)
+		var cvs []*etree.Element
+		for _, x := range ed.FindElements(".//CipherValue") {
+			cvs = append(cvs, x)
+		}
+		if len(cvs) > 0 && strings.HasPrefix(a.Wrap, "b-") {
+			cv := cvs[len(cvs)-1]
+			raw, _ := base64.StdEncoding.DecodeString(cv.Text())
+			switch a.Wrap {
+			case "b-empty":
+				cv.SetText("")
+			case "b-blank":
+				cv.SetText("  \n ")
+			case "b-ivonly":
+				cv.SetText(base64.StdEncoding.EncodeToString(raw[:16]))
+			case "b-truncated":
+				cv.SetText(base64.StdEncoding.EncodeToString(raw[:len(raw)-7]))
+			case "b-flipped":
+				raw[len(raw)-1] ^= 0x55
+				raw[len(raw)-17] ^= 0x55
+				cv.SetText(base64.StdEncoding.EncodeToString(raw))
+			case "b-nokey":
+				if ek := ed.FindElement(".//EncryptedKey"); ek != nil {
+					ek.Parent().RemoveChild(ek)
+				}
+			}
+		}
 		ea := etree.NewElement("saml:EncryptedAssertion")
 		ea.AddChild(ed)
 		return ea
@@ -394,7 +425,7 @@ func firstSetStr(a, b string) string {
 }
 
 func assnGood(cfg SPCfg, now int64, ids []string, need bool, a Assn) bool {
-	if a.Wrap == "b" {
+	if strings.HasPrefix(a.Wrap, "b") {
 		return false
 	}
 	if need && sigState(a.Sig, cfg) != "v" {
